@@ -314,6 +314,9 @@ class LiteDRAMFIFO(Module):
             dram_inc_mod = Signal(max(int(math.log2(data_width_ratio)), 1))
             dram_dec_mod = Signal(max(int(math.log2(data_width_ratio)), 1))
 
+            pre_converter_idle = Signal()
+            self.comb += pre_converter_idle.eq(1 if data_width_ratio == 1 else ~pre_converter.source.valid)
+
             self.submodules.fsm = fsm = FSM(reset_state="BYPASS")
             fsm.act("BYPASS",
                 dram_bypass.eq(1),
@@ -352,8 +355,9 @@ class LiteDRAMFIFO(Module):
                 # Maintain DRAM Word Count.
                 NextValue(dram_cnt, dram_cnt + dram_inc - dram_dec),
 
-                # Switch back to Bypass mode when no remaining DRAM word.
-                If((dram_first == 0) & (dram_cnt == 0),
+                # Switch back to Bypass mode when no remaining DRAM word (a complete word still waiting in the
+                # Pre-Converter is not yet counted in dram_cnt: wait until it has been handed to the DRAM FIFO).
+                If((dram_first == 0) & (dram_cnt == 0) & pre_converter_idle,
                     dram_store.eq(0),
                     If((dram_dec_mod == 0) & (dram_inc_mod == 0), 
                         NextState("BYPASS")
